@@ -144,6 +144,9 @@ pub struct OracleCtx<'a> {
     /// some earlier or the current evaluation injected a contract-violating Ephemeral:
     /// job outputs are no longer a function of the graph
     pub nondeterministic_outputs: bool,
+    /// ids of jobs whose last execution attempt (in an earlier evaluation of the chain) failed or
+    /// was killed by an abort, with no successful execution since
+    pub tainted: Option<&'a BTreeSet<String>>,
 }
 
 /// all end-of-evaluation oracles; returns violations and bumps probes
@@ -194,6 +197,14 @@ pub fn check_eval(ctx: &OracleCtx, out: &EvalOut, plan: &EvalPlan, probes: &mut 
         probe(probes, "c03_skipped_jobs_checked");
         if job.kind == Kind::Always {
             vio.push(v("C03", "always-skipped", format!("Always job {} was skipped", job.id)));
+            continue;
+        }
+        if ctx.tainted.map(|t| t.contains(&job.id)).unwrap_or(false) {
+            vio.push(v(
+                "C03",
+                "skipped-after-failed-attempt",
+                format!("{} ({:?}) skipped although its last execution attempt failed or was killed and it has not succeeded since", job.id, job.kind),
+            ));
             continue;
         }
         if !h_in.contains_key(&job.id) {
@@ -346,13 +357,15 @@ pub fn check_eval(ctx: &OracleCtx, out: &EvalOut, plan: &EvalPlan, probes: &mut 
                 vio.push(v("C11", "input-list-record-wrong", format!("{}: recorded {:?}, current {:?}", job.id, h_out.get(&format!("{}!!!", job.id)), names)));
             }
             for (u, _) in job.ups.iter() {
-                if let Some(c) = cur(*u) {
+                // what it consumed = the upstream's current output at the moment it started
+                let c = out.consumed_at_start.get(&(*j, *u)).cloned().or_else(|| cur(*u));
+                if let Some(c) = c {
                     let k = format!("{}!!!{}", gv.jobs[*u].id, job.id);
                     if h_out.get(&k) != Some(&c) {
                         vio.push(v(
                             "C11",
                             "edge-record-wrong",
-                            format!("{}: recorded {:?}, upstream's output was {:?}", k, h_out.get(&k), c),
+                            format!("{}: recorded {:?}, upstream's output was {:?} (upstream ended {:?})", k, h_out.get(&k), c, out.disp[*u]),
                         ));
                     }
                 }
